@@ -59,8 +59,10 @@ CHECKS.update({
              "with preemption at every source line of the store modules; TLC decides for every recorded history that lock events "
              "are balanced on every path (incl. failing imports and early returns) and that some sequential order explains all "
              "outcomes and the final store content.",
-        note="Preemption points are the source lines of the three store modules (iteration inside networkx/networkx_query is atomic); "
-             "preemption bound 1 quick / 2 thorough plus random schedules.",
+        note="Preemption points are the source lines of the three store modules and the entry of every call they make into other "
+             "Python code (what happens inside networkx/networkx_query is atomic); preemption bound 1 quick / 2 thorough plus "
+             "random schedules. The property graph's lock-free delete_node is exercised sequentially only (the property speaks "
+             "about threads that import graphs or create nodes).",
         design="DESIGN.md §3 C20"),
 })
 
@@ -111,7 +113,8 @@ CHECKS.update({
         text="Exactness of removal is a frame condition: TLC checks on the model that everything surviving a removal is unchanged, "
              "and judges for every replayed removal (node, component, service, facility, link, sub-interface, disconnect, unpeer) "
              "the complete post-state of the real model against the prediction; the handle through which a call was made must "
-             "report the same interfaces as a fresh lookup.",
+             "report the same interfaces as a fresh lookup. Seeds include a port with two sub-interfaces and a facility with "
+             "three interfaces (small alphabet over which of them are connected).",
         note=TOPO_NOTE, design="DESIGN.md §3 C08"),
     "C09": dict(
         technique="FimTopology failure disjuncts (st = s) and the code-shaped multi-step service creation with rollback; TLC checks "
@@ -120,7 +123,9 @@ CHECKS.update({
         text="For every reachable topology of the bound TLC enumerates all failing calls (duplicate names at each scope, invalid "
              "names, unknown models, already-connected/stale interface as k-th argument, guardrail rejections); the real API must "
              "raise the same exception class and leave the projected model identical; set_properties with an unknown / badly "
-             "typed property after good ones on every element kind.",
+             "typed property after good ones on every element kind; a caller-supplied id that is already taken deep inside a "
+             "component; connect through the object of a removed service; peering again after the peer service was removed "
+             "and re-created.",
         note=TOPO_NOTE, design="DESIGN.md §3 C09"),
     "C10": dict(
         technique="Constraint tables PINNED as TLA+ constants in FimTopology (live tables compared cell by cell); TLC enumerates the "
